@@ -314,6 +314,27 @@ def r_colour_switch(r, prog):
                     r.finding('literal-escape-sequence:%s' % g.path, g.span_of(s.get('sp')), '%s contains a string constant with an ANSI escape sequence: colours could not be disabled' % g.path)
     if hits == 0:
         r.ok('no string constant contains an escape sequence')
+    # styled text is only produced after the switch: by the human emitter and what it calls (and by emit_totals, which the binary calls
+    # after the diagnostics were emitted). A label styled earlier - in the constructor, in a static - keeps its escape sequences whatever
+    # --disable-color says.
+    LATE = (EM + 'emit_diagnostics_in_human', EM + 'emit_snippet', 'slicec::diagnostic_emitter::emit_totals', 'slicec::slice_file::SliceFile::get_snippet', 'slicec::slice_file::get_highlight')
+    early = []
+    n_style = 0
+    for g in prog.fns.values():
+        if g.crate.tag not in ('slicec', 'slicec_bin') or g.generated:
+            continue
+        for c in g.calls():
+            if not g.blocks[c.bb].get('cleanup') and re.search(r'^console::utils::style$|console::utils::StyledObject', c.resolved or ''):
+                n_style += 1
+                if not any(g.path == p_ or g.path.startswith(p_ + '::{closure') for p_ in LATE):
+                    early.append((g, c))
+    if n_style < 10:
+        raise AnchorMissing('styling calls (found %d)' % n_style)
+    if early:
+        for g, c in early[:3]:
+            r.finding('styled-before-colour-switch:%s' % g.path, c.span, '%s styles text (%s) outside the functions that run after the colour switch: with --disable-color that text keeps its escape sequences' % (g.path, c.name()))
+    else:
+        r.ok('text is styled only by the human emitter, the snippet code and emit_totals (%d calls), all of which run after the colour switch' % n_style)
     # disable_color field comes from the options
     new = prog.fn(EM + 'new')
     ag = [x for x in aggregates(prog, 'slicec::diagnostic_emitter::DiagnosticEmitter') if x['fn'] is new]
@@ -321,7 +342,7 @@ def r_colour_switch(r, prog):
         r.ok('emitter takes disable_color and diagnostic_format from the options')
     else:
         r.finding('emitter-options', new.span, 'DiagnosticEmitter::new does not take disable_color / diagnostic_format from SliceOptions')
-    r.floor(3)
+    r.floor(4)
 
 
 def r_snippet_from_span_file(r, prog):
@@ -365,7 +386,15 @@ def r_format_dispatch(r, prog):
             r.ok('format %s -> %s' % (v, exp[v]))
         else:
             r.finding('format-dispatch:%s' % v, f.span, 'format %s is emitted by %s' % (v, cs))
-    r.floor(2)
+    # the list that is written is the list that was handed in (and counted by the caller): the dispatcher passes its argument on untouched
+    ems = [c for c in f.calls() if c.name().startswith('emit_diagnostics_in') and not f.blocks[c.bb].get('cleanup')]
+    changed = [c for c in f.calls() if c.name() in REORDER + ('filter', 'retain', 'dedup_by', 'drain', 'into_iter', 'iter_mut', 'push', 'extend') and not f.blocks[c.bb].get('cleanup')]
+    if ems and all(vexpr(f, c.args[1]) == 'arg2' for c in ems) and not changed:
+        r.ok('emit_diagnostics hands its argument to the emitter of the format as it is')
+    else:
+        r.finding('emitted-list-altered', f.span, 'emit_diagnostics passes on %s%s: what is written is not the list that was given (and that the totals and the exit status were computed from)' % (
+            sorted({vexpr(f, c.args[1])[:60] for c in ems}), (' after calling %s on it' % sorted({c.name() for c in changed})) if changed else ''))
+    r.floor(3)
 
 
 import decisions
